@@ -136,6 +136,9 @@ class CallMixin:
                 pass
             res = [(V('ext', 'builtins.' + name, ev.seq), st)]
             return self.after_call(ev, res)
+        if name == 'sum' and len(args) == 2 and not (args[1].is_const and isinstance(args[1].val, (int, float))):
+            # sum(xs, start) over sequences: start followed by the concatenation of xs
+            return [(V('term', 'Add', (args[1], V('term', 'concat', (args[0],)))), st)]
         if name == 'map' and len(args) == 2:
             # map(f, xs): f applied to the (abstract) element of xs
             seq = args[1]
@@ -491,6 +494,13 @@ class CallMixin:
         f = st.facts.get(('truthy', v))
         if f is not None:
             return f
+        if v.k == 'term' and v.a[0] in ('sorted', 'list', 'tuple', 'reversed', 'enumerate') and len(v.a[1]) == 1:
+            return self.known_truth(v.a[1][0], st)      # as empty as what it was built from
+        if v.k == 'mcall' and v.a[0] in ('items', 'keys', 'values') and isinstance(v.a[1], int) \
+                and v.a[1] < len(st.trace):
+            recv = st.trace[v.a[1]].d.get('recv')
+            if recv is not None and recv.k != 'selfattr':
+                return self.known_truth(recv, st)       # a non-empty mapping has items
         if v.k == 'term' and v.a[0] == 'len' and len(v.a[1]) == 1:
             fx = st.facts.get(('truthy', v.a[1][0]))
             if fx is not None:
@@ -538,6 +548,8 @@ class CallMixin:
 
     def assume(self, v, truth, st):
         st.facts[('truthy', v)] = truth
+        if v.k == 'term' and v.a[0] in ('sorted', 'list', 'tuple', 'reversed', 'enumerate') and len(v.a[1]) == 1:
+            self.assume(v.a[1][0], truth, st)
         if v.k == 'term' and v.a[0] == 'len' and len(v.a[1]) == 1:
             st.facts[('truthy', v.a[1][0])] = truth
         lc = self._len_cmp(v)
